@@ -199,6 +199,8 @@ def long_cases():
 def _same(a, b):
     if isinstance(a, float) and isinstance(b, float):
         # a fresh object re-runs the (tolerance-1e-12, order-dependent) fixpoint computations of its constructor
+        if a != a or b != b or abs(a) == float('inf') or abs(b) == float('inf'):
+            return a == b          # nan is never the same; an infinite value only equals itself
         return a == b or abs(a - b) <= 1e-9 * max(abs(a), abs(b))
     if isinstance(a, (list, tuple)) and isinstance(b, (list, tuple)):
         return len(a) == len(b) and all(_same(x, y) for x, y in zip(a, b))
